@@ -187,6 +187,7 @@ class Sim:
         self.multi_choice_steps = 0
         self.time_jumps = 0
         self.finished = False
+        self.timers_armed = False   # early timers only after start-up
 
     # ------------------------------------------------------------ logging
     def log(self, *a) -> None:
@@ -394,6 +395,16 @@ class Sim:
         for e in self.endpoints:
             if e.inflight and not e.frozen:
                 ch.append(('d', e))
+        if self.policy.timers == 'anytime' and ch and self.timers_armed:
+            # early timer: a short sleep may end although other processes
+            # are still busy (a slow peer, a loaded machine); the clock
+            # then jumps forward to its wake-up time
+            for t in self.threads:
+                if t.state == 'blocked' and t.wake_at is not None \
+                        and not t.node.dead and t.wake_at > self.now \
+                        and t.wake_at - self.now <= 1.0 \
+                        and t.why.startswith('sleep'):
+                    ch.append(('w', t))
         return ch
 
     def _reap(self) -> None:
@@ -423,9 +434,10 @@ class Sim:
         r = self.srng
 
         def weighted() -> int:
-            if pol.w_deliver == 1.0:
+            if pol.w_deliver == 1.0 and all(k != 'w' for k, _ in choices):
                 return r.randrange(n)
-            ws = [pol.w_deliver if k == 'd' else 1.0 for k, _ in choices]
+            ws = [pol.w_deliver if k == 'd' else (0.05 if k == 'w' else 1.0)
+                  for k, _ in choices]
             x = r.random() * sum(ws)
             for i, w in enumerate(ws):
                 x -= w
@@ -513,6 +525,11 @@ class Sim:
             if kind == 'd':
                 self.last_run = ('d', x.index)
                 x.deliver_one()
+            elif kind == 'w':
+                self.now = max(self.now, x.wake_at)
+                self.count('fault.early_timer')
+                self.log('TIME-EARLY', x.name, round(self.now, 6))
+                self._resume(x)
             else:
                 self._resume(x)
 
@@ -544,8 +561,8 @@ class Sim:
 
 def _label(choice) -> str:
     kind, x = choice
-    if kind == 't':
-        return 'T:' + x.name
+    if kind in ('t', 'w'):
+        return ('T:' if kind == 't' else 'W:') + x.name
     return 'D:' + x.label
 
 
